@@ -54,9 +54,10 @@ static int Pt_Show(var self, var out, int pos) {
   return print_to(out, pos, "Pt(%i,%i)", $I(p->x), $I(p->y));
 }
 static int64_t Pt_C_Int(var self) { struct Pt* p = self; return p->x * 1000 + p->y; }
+static double Pt_C_Float(var self) { struct Pt* p = self; return (double)p->x + (double)p->y / 16.0; }
 static var Pt = Cello(Pt,
   Instance(New, Pt_New, NULL), Instance(Assign, Pt_Assign), Instance(Cmp, Pt_Cmp),
-  Instance(Hash, Pt_Hash), Instance(Show, Pt_Show, NULL), Instance(C_Int, Pt_C_Int));
+  Instance(Hash, Pt_Hash), Instance(Show, Pt_Show, NULL), Instance(C_Int, Pt_C_Int), Instance(C_Float, Pt_C_Float));
 
 /* the program's own exception objects */
 static var ErrA = CelloEmpty(ErrA);
@@ -304,7 +305,8 @@ static void op_exec(struct W* w, const char* op) {
   }
   if (strcmp(op, "de") == 0) { if (T is Ref) { pv(deref(x)); } else P("-"); return; }
   if (strcmp(op, "ci") == 0) {
-    if (T is Int or T is Pt) P("%" PRId64, c_int(x));
+    if (T is Pt) P("%" PRId64 ",%f", c_int(x), c_float(x));     /* two classes of one user type */
+    else if (T is Int) P("%" PRId64, c_int(x));
     else if (T is Float) P("%f", c_float(x));
     else if (T is String) P("%s", c_str(x));
     else P("-");
